@@ -32,7 +32,7 @@ CLAIMS = {
         design="7/C14",
     ),
     "C01": dict(
-        text="Machine-checked Coq proof (C01_load, by the simulation theorem of C10): for every magic and every payload, whenever CPython's marshal reader of the bytecode's version returns a code-object tree, xdis's reader returns the same tree (all integer fields per the version's layout, code, constants recursively, names, var/free/cell names, filename, name, qualname, first line, line table, exception table) and consumes exactly the same bytes (Python 2 int and long are distinct kinds in the tree); plus the 3.11+ localsplus split = CPython's three filters. Model tied to load_code by in-Coq correspondence on the corpus (1.0-3.12, PyPy) and on sources/stdlib compiled by each installed interpreter.",
+        text="Machine-checked Coq proof (C01_load, by the simulation theorem of C10): for every magic and every payload, whenever CPython's marshal reader of the bytecode's version returns a code-object tree, xdis's reader returns the same tree (all integer fields per the version's layout, code, constants recursively, names, var/free/cell names, filename, name, qualname, first line, line table, exception table) and consumes exactly the same bytes (Python 2 int and long are distinct kinds in the tree); plus the 3.11+ localsplus split = CPython's three filters; and for load_module as a whole (C01_load_module): for the file of every released magic and every byte string after it, when the version's format yields header fields and CPython's marshal loads the bytes after them to a code-object tree, header parser + unmarshaller return that version, those fields and the same tree. Model tied to load_code by in-Coq correspondence on the corpus (1.0-3.12, PyPy) and on sources/stdlib compiled by each installed interpreter.",
         note="Trusted: Coq kernel; the single parametrised reader coq/Model/Unmarshal.v (strict = CPython, permissive = xdis) + correspondence on both instantiations: xdis side vs load_code, CPython side vs marshal.loads of the installed 2.7, 3.6-3.13 on their own code objects; magics/dispatch translators; canonical observation (tools/harness/ops_marshal.py). Versions without an interpreter here rest on the transcription. Text payloads assumed valid UTF-8; 2.0 layout undecided; Dropbox/Graal bodies not modelled. No axioms.",
         technique="Coq simulation proof (induction on fuel, reference-table relation) + vm_compute table obligations + in-Coq correspondence",
         design="7/C01",
@@ -80,7 +80,7 @@ CLAIMS = {
         design="7/C20",
     ),
     "C18": dict(
-        text="PARTIAL proof + monitored execution. Proved in Coq: a frame theorem (if operations write only cells no result depends on, the result of any probe after ANY finite history equals its result right after import, and a repeated call repeats its result), instantiated on an inventory regenerated from the AST of every module of /repo on every run: mutable default arguments, their self.x aliases, module globals, argument objects, setattr; every statement that changes such state inside a function body must fall in a class (import-time table builder - call sites checked, per-call object, write-only cell - no reads of its content anywhere, default every caller overrides, explicit remapping); a new mutation site, a read of a write-only cell or a new mutated default breaks the obligation. Execution: random histories of 1-40 public operations in one process then a probe, against the probe as first call of a fresh process and against its own repetition, shrunk on difference; all ~1300 module-level containers and mutable defaults of xdis.* digested before/after.",
+        text="PARTIAL proof + monitored execution. Proved in Coq: a frame theorem (if operations write only cells no result depends on, the result of any probe after ANY finite history equals its result right after import, and a repeated call repeats its result), instantiated on an inventory regenerated from the AST of every module of /repo on every run: mutable default arguments, their self.x aliases, module globals and local aliases of them, argument objects, setattr, and every use of a memoising helper (functools.lru_cache / cache / cached_property: a site of its own); every statement that changes such state inside a function body must fall in a class (import-time table builder - call sites checked, per-call object, write-only cell - no reads of its content anywhere, default every caller overrides, explicit remapping); a new mutation site, a read of a write-only cell or a new mutated default breaks the obligation. Execution: random histories of 1-40 public operations (15 kinds, incl. the std functions and co_lines() per code object, whole-table stack effects, sysinfo2magic, pretty_flags; 40% related to the probe: the other variant of its version, the same file through another entry point, the same source compiled for another version) in one process then a probe, against the probe as first call of a fresh process and against its own repetition, shrunk on difference; all ~1300 module-level containers and mutable defaults of xdis.* digested before/after.",
         note="Trusted: Coq kernel; AST scanner tools/translate/mutstate.py (syntactic: aliasing beyond self.x = param and state reached through attribute chains of locals is not tracked); classification table coq/Model/History.v; harness digests. State outside the package (linecache, import system) is not in the inventory. No axioms (result functions are required to be extensional, stated as a hypothesis).",
         technique="Coq frame theorem + source-derived inventory obligations (vm_compute) + randomized history execution against fresh processes",
         design="7/C18",
@@ -116,7 +116,7 @@ CLAIMS = {
         design="7/C06",
     ),
     "C09": dict(
-        text="Machine-checked Coq proof by complete evaluation (vm_compute) over the 39 opcode tables regenerated from /repo on every run: name/number bijection, categorised opcodes defined and operand-taking (modulo CPython's own gaps), jrel/jabs disjoint, EXTENDED_ARG and shift, frozen category sets = category lists, label-finder binding; equality with the interpreter's opcode module (opmap, HAVE_ARGUMENT, EXTENDED_ARG, 7 categories) for the 9 installed CPythons.",
+        text="Machine-checked Coq proof by complete evaluation (vm_compute) over the 39 opcode tables regenerated from /repo on every run: name/number bijection, categorised opcodes defined and operand-taking (modulo CPython's own gaps), jrel/jabs disjoint, EXTENDED_ARG and shift, frozen category sets = category lists, label-finder binding; equality with the interpreter's opcode module (opmap, opname[n] spelled as CPython spells it, HAVE_ARGUMENT, EXTENDED_ARG, 7 categories) for the 9 installed CPythons.",
         note="Trusted: Coq kernel; translator tools/translate/opcodes.py (imports /repo's opcode modules and dumps their attributes; dumps opcode modules of the installed interpreters). For the 30 tables without an installed interpreter only coherence is decided. No axioms.",
         technique="Coq vm_compute obligations over tables regenerated from the source on every run",
         design="7/C09",
